@@ -160,7 +160,6 @@ def run(run_, pkg, tier):
             tasks.append((key, "C03-e-indexing", gradient_index_obligation(vt), "%s:%d" % (ifn._gs_module, ifn.lineno)))
     record(run_, tasks, run_tasks(pkg, tasks))
     if run_.only is None:
-        oa = optim_rules.analyse(pkg)
-        n = optim_rules.report(run_, oa, ["C03-d"])
+        n = optim_rules.optimize_verdicts(run_, pkg, "C03", lambda f: (f.key, f.rule) if f.rule.startswith("C03-d") else None)
         run_.floor("C03-d rule instances", n, 6)
     run_.floor("C03 obligations", len(tasks) if run_.only is None else 16, 16)
